@@ -41,6 +41,9 @@ CHECKS = {
  'C13': dict(level='model_checking', ref='3/C13', technique='TLA+ typing model (DocGen.tla) records the line on which every block starts; behaviours replayed into the real parser and (class, line_number) sequences compared (spec -> code)',
    text='For every document typed by DocGen.tla (exhaustive small bounds + simulation) the specification knows the line on which it wrote each block; the harness compares with token.line_number of every block token in document order.',
    note='Trusted: the line book-keeping of DocGen.tla (LinesOrdered invariant checked by TLC). Tables and containers that begin with a blank line are not yet typed by the model.'),
+ 'C14': dict(level='model_checking', ref='3/C14', technique='TLA+ model of inert prose (Prose.tla: vocabulary with lexical guards, paragraph typed lexeme by lexeme) explored by TLC exhaustively within bounds and in simulation mode; every paragraph replayed into the real renderer (spec -> code)',
+   text='Prose.tla types paragraphs under conservative spec-derived inertness guards and writes text and expected HTML; all paragraphs of one line x <= 2 lexemes and two lines x 1 lexeme (thorough: 3 / 3) plus simulated larger ones are rendered by the real HtmlRenderer and compared for equality.',
+   note='Trusted: the inertness guards of Prose.tla (each is a CommonMark block-start or inline-trigger rule, conservative by construction).'),
  'C15': dict(level='exploration', ref='3/C15', technique='TLA+ model of the supply paths (Forms.tla, exhaustive small texts, replayed into the API) plus Laws!FormsLaw / Laws!CliLaw judged by TLC on recorded outputs',
    text='Forms.tla shows all supply paths yield one line list for every text of <= 3 lines over 8 bodies; each such text and sampled corpus/fuzz texts are pushed through str/list/iterator/file/cli.convert and real python -m mistletoe subprocesses; TLC judges output equality and CLI concatenation.',
    note='Trusted: harness/c15.py form drivers; texts with line terminators other than LF are outside the domain.'),
